@@ -3,7 +3,7 @@ import itertools, re, html, subprocess, time, os
 from vp import build, core, mmd, pmap
 
 KEYS = [b"Title", b"my key", b"A.b_c-d", b"x1", b"Author", b"Title Short", b"x1x"]      # incl. keys that are prefixes of other keys
-VALUES = [b"word", b"a: b", b"x & y <z>", b"trail  ", b"line1\n    line2", b"caf\xc3\xa9 \xe2\x80\xa0", b"v\n    k2: w", b"two  spaces", b"q\"uote'", b"see\nhttp://host/x?a=1", b"http://host/y", b"mail\nmailto:me@x.yz"]
+VALUES = [b"word", b"a: b", b"x & y <z>", b"trail  ", b"line1\n    line2", b"caf\xc3\xa9 \xe2\x80\xa0", b"v\n    k2: w", b"two  spaces", b"q\"uote'", b"see\nhttp://host/x?a=1", b"http://host/y", b"mail\nmailto:me@x.yz", b"\"To be\" or \"not\"", b"'q'"]      # the last two begin and end with the same quote character
 BODIES = [b"", b"para text\n", b"# Heading\n", b"Not: metadata\n", b"*emph* [l](u)\n\nsecond\n"]
 FENCES = ["none", "yaml"]
 TERMS = ["blank", "eof_nl", "eof"]
